@@ -26,6 +26,8 @@ type C12Case struct {
 	Sep   bool    `json:"sep,omitempty"`
 	P     uint    `json:"p"`
 	M     uint8   `json:"m"`
+	// Strict: no allowance for known finding F-43 (replay files of that finding only)
+	Strict bool `json:"strict,omitempty"`
 }
 
 const c12Alphabet = "0123456789abcdefABCDEFxXoObBpPeE._+-iInNfF zZ\t\n"
@@ -142,6 +144,9 @@ func genC12(t *rapid.T) C12Case {
 	if h.Thorough() {
 		maxD = 3000
 	}
+	if h.Rare(t, "pow2near", 12) {
+		return genC12Pow2Near(t)
+	}
 	if rapid.IntRange(0, 24).Draw(t, "mixed") == 0 {
 		// binary / octal mantissa (prefix form) with fractional digits and a DECIMAL 'e' exponent, also at the ends of the
 		// int32 range: math/big cannot be asked there, the value is m*2^k (exact, from math/big on the mantissa alone) x 10^e
@@ -217,6 +222,10 @@ func genC12(t *rapid.T) C12Case {
 			if !l.Sep && rapid.Bool().Draw(t, "b10") {
 				c.Base = 10
 			}
+		}
+		if c.Entry == "parsedecimal" && h.Rare(t, "hugeprec", 6) {
+			// a precision argument beyond MaxPrec (a uint, unlike the receiver's own uint32 precision): clamped, as SetPrec does
+			c.P = rapid.SampledFrom([]uint{1<<32 + 5, 1 << 32, 1<<32 - 1, 1<<32 + 34, 1 << 33, 1<<63 + 7, math.MaxUint64, 1<<40 + 1}).Draw(t, "hugeprecv")
 		}
 		if c.Entry == "scan" {
 			c.S = rapid.SampledFrom([]string{"", " ", "\t ", "\n"}).Draw(t, "lead") + c.S + rapid.SampledFrom([]string{"", " ", " 7", "\n"}).Draw(t, "trail")
@@ -347,6 +356,10 @@ func checkC12(c C12Case, o *h.Obs) *h.Fail {
 	if wantPrec == 0 {
 		wantPrec = 34
 	}
+	if wantPrec > model.MaxPrec {
+		wantPrec = model.MaxPrec // ParseDecimal's precision argument: "If prec > MaxPrec, it is set to MaxPrec"
+		o.Label("precision-argument-beyond-MaxPrec")
+	}
 	if c.Kind == "grid" {
 		// replay of an enumerated case (TestC12Grid): exact expansion of 2^-n
 		i := strings.LastIndexByte(c.S, '-')
@@ -396,6 +409,9 @@ func checkC12(c C12Case, o *h.Obs) *h.Fail {
 	}
 	if c.Kind == "mixed" {
 		return checkC12Mixed(c, o, got, err, wantPrec)
+	}
+	if c.Kind == "pow2near" {
+		return checkC12Pow2Near(c, o, got, err, wantPrec)
 	}
 	if c.Kind == "expfield" {
 		i := strings.LastIndexAny(c.S, "ep")
@@ -503,7 +519,6 @@ func checkC12(c C12Case, o *h.Obs) *h.Fail {
 		return nil
 	}
 	ex := model.FromRat(r, uint64(wantPrec))
-	want, _ := model.Round(ex, uint64(wantPrec), model.Mode(c.M))
 	fits := !ex.Sticky && uint(len(ex.Digits)) <= wantPrec
 	if fits {
 		o.Label("any:representable")
@@ -514,11 +529,43 @@ func checkC12(c C12Case, o *h.Obs) *h.Fail {
 	}
 	o.Label("any:rounded")
 	o.NonTrivial()
-	if dist := model.UlpDistance(got.Val(), want, uint64(wantPrec)); dist.Cmp(big.NewRat(1, 1)) > 0 {
-		f, _ := dist.Float64()
-		return h.Failf("ulp", "%s(%q, %d) at precision %d %v: got %v, correctly rounded %v: %.3g ulp apart", c.Entry, c.S, c.Base, wantPrec, model.Mode(c.M), got.Val(), want, f)
+	return c12Faithful(c, o, got, model.FromRat(r, uint64(wantPrec)+c12ZoneDigits+3), wantPrec, c.S)
+}
+
+// c12ZoneDigits: the zone of known finding F-43. Literals that are scaled by a rounded power of two (binary exponents
+// beyond the window in which the scaling is exact) are rounded twice, the first time at precision+19 digits. When the
+// exact value lies within 10^-(precision+17) (relative) of a number of `precision` digits, the first rounding can put
+// it on the other side of that number and a directed mode then returns the neighbour beyond it: more than one unit
+// away from the exact value, by a hair. Outside that zone a result must be one of the two neighbours of the exact
+// value ("within one unit in the last place"); inside it, the neighbour beyond the near number is tolerated too.
+const c12ZoneDigits = 17
+
+// c12Faithful: ex holds the exact value cut after at least precision+c12ZoneDigits+1 digits (plus sticky).
+func c12Faithful(c C12Case, o *h.Obs, got h.Snap, ex model.X, wantPrec uint, what string) *h.Fail {
+	lo, _ := model.Round(ex, uint64(wantPrec), model.ToZero)
+	hi, _ := model.Round(ex, uint64(wantPrec), model.AwayFromZero)
+	g := got.Val()
+	if g.Equal(lo) || g.Equal(hi) {
+		return nil
 	}
-	return nil
+	tail := ex.Digits
+	if uint(len(tail)) > wantPrec {
+		tail = tail[wantPrec:]
+	} else {
+		tail = ""
+	}
+	for len(tail) < c12ZoneDigits {
+		tail += "0"
+	}
+	tail = tail[:c12ZoneDigits]
+	want, _ := model.Round(ex, uint64(wantPrec), model.Mode(c.M))
+	if !c.Strict && (strings.Trim(tail, "0") == "" || strings.Trim(tail, "9") == "") {
+		if dist := model.UlpDistance(g, want, uint64(wantPrec)); dist.Cmp(big.NewRat(1, 1)) <= 0 {
+			o.Label("zone:F-43-double-rounding-next-to-a-representable-number")
+			return nil
+		}
+	}
+	return h.Failf("ulp", "%s(%q, %d) at precision %d %v: got %v; the exact value %v lies between %v and %v", c.Entry, h.FirstN(what, 200), c.Base, wantPrec, model.Mode(c.M), g, ex, lo, hi)
 }
 
 // checkC12Mixed: literal = [sign] (0b|0o) digits "." digits "e" exp. The mantissa's exact value comes from
@@ -578,14 +625,10 @@ func checkC12Mixed(c C12Case, o *h.Obs, got h.Snap, err error, wantPrec uint) *h
 		return nil
 	}
 	o.NonTrivial()
-	if dist := model.UlpDistance(got.Val(), want, uint64(wantPrec)); dist.Cmp(big.NewRat(1, 1)) > 0 {
-		f, _ := dist.Float64()
-		return h.Failf("ulp", "%s(%q) at precision %d %v: got %v, correctly rounded %v: %.3g ulp apart", c.Entry, c.S, wantPrec, model.Mode(c.M), got.Val(), want, f)
-	}
-	return nil
+	return c12Faithful(c, o, got, ex, wantPrec, c.S)
 }
 
-const ruleC12 = "rapid-generated inputs of three kinds. (dec) base-10 literals of the documented grammar with the value known by construction: sign, digits split around the point anywhere, leading/trailing zeros, '_' separators in legal positions, e/E exponents over the whole int32 range and beyond, up to 600 (quick) / 3000 (thorough) digits with rounding patterns; through Parse, SetString, ParseDecimal, UnmarshalText and Scan (fmt.Sscan with surrounding blanks; fmt.Sscanf with the literal directly followed by -, +, :, comma or / and a second number); receiver precision 0 or 1..80, six modes. Oracle: literal's exact value rounded once (value, accuracy, precision 34 if it was 0, base 10); scaled exponent outside int32 => error. (any) literals in base 2/8/16 or with p exponents, one- and two-character mutations of valid literals (deleted/inserted/replaced/duplicated characters, misplaced '_'), short strings over the alphabet of number characters, a list of hostile constants: acceptance and detected base must coincide with math/big Float.Parse (compared when the exponent field is <= 10000 in magnitude), the value must be exact when its decimal expansion fits the precision and within 1 ulp of the correctly rounded value otherwise (exact rational taken from math/big at a precision that makes it exact). (mixed) binary/octal mantissas with fractional digits and a decimal e exponent over the whole int32 range and at its ends: value = exact binary mantissa (math/big) x 10^e with the range rule (underflow to a signed zero, overflow to infinity), exact when representable, 1 ulp otherwise; rejection accepted only within 80 of a range end. (expfield) short mantissas with exponent fields at the edges of int64 and int32 (+-2^63, +-(2^63-1), -2^63-1, 2^64, +-2^32, +-2^31, twenty nines, zero-padded fields): a field that does not fit an int64 must be rejected, a zero mantissa with a valid field (e or p) is a signed zero, a non-zero base-10 literal is accepted exactly when its scaled exponent lies in the int32 range; a non-zero mantissa with a p exponent is rejected when the exponent lies outside the int32 range (as math/big does) and otherwise accepted with a value of the right order of magnitude (fields from -2^63 to 2^63-1, +-7.2e9, +-2^32, +-(2^31+100), +-2147483000, +-10^9). Always: no panic, err != nil => returned *Decimal is nil, receiver canonical. Non-trivial = an accepted literal that needs rounding, or a rejected string; distinct by case."
+const ruleC12 = "rapid-generated inputs of three kinds. (dec) base-10 literals of the documented grammar with the value known by construction: sign, digits split around the point anywhere, leading/trailing zeros, '_' separators in legal positions, e/E exponents over the whole int32 range and beyond, up to 600 (quick) / 3000 (thorough) digits with rounding patterns; through Parse, SetString, ParseDecimal, UnmarshalText and Scan (fmt.Sscan with surrounding blanks; fmt.Sscanf with the literal directly followed by -, +, :, comma or / and a second number); receiver precision 0 or 1..80, six modes. Oracle: literal's exact value rounded once (value, accuracy, precision 34 if it was 0, base 10); scaled exponent outside int32 => error. (any) literals in base 2/8/16 or with p exponents, one- and two-character mutations of valid literals (deleted/inserted/replaced/duplicated characters, misplaced '_'), short strings over the alphabet of number characters, a list of hostile constants: acceptance and detected base must coincide with math/big Float.Parse (compared when the exponent field is <= 10000 in magnitude), the value must be exact when its decimal expansion fits the precision and within 1 ulp of the correctly rounded value otherwise (exact rational taken from math/big at a precision that makes it exact). (mixed) binary/octal mantissas with fractional digits and a decimal e exponent over the whole int32 range and at its ends: value = exact binary mantissa (math/big) x 10^e with the range rule (underflow to a signed zero, overflow to infinity), exact when representable, 1 ulp otherwise; rejection accepted only within 80 of a range end. (pow2near) decimal mantissas with a p exponent of any size up to +-(2^31-200), constructed from a chosen P-digit number R, exponent k and closeness c as m = floor or ceil(R*10^j/2^k) with P+c digits, so that m*2^k lies 10^-(P+9)..10^-(P+21) (relative) from R*10^j; reference in 700-bit binary floating point; outside the zone of known finding F-43 (closer than 10^-(P+17)) the result must be one of the two neighbours of the exact value. The same rule (a neighbour of the exact value; F-43 zone tolerated) holds for every rounded result of the any and mixed kinds. (expfield) short mantissas with exponent fields at the edges of int64 and int32 (+-2^63, +-(2^63-1), -2^63-1, 2^64, +-2^32, +-2^31, twenty nines, zero-padded fields): a field that does not fit an int64 must be rejected, a zero mantissa with a valid field (e or p) is a signed zero, a non-zero base-10 literal is accepted exactly when its scaled exponent lies in the int32 range; a non-zero mantissa with a p exponent is rejected when the exponent lies outside the int32 range (as math/big does) and otherwise accepted with a value of the right order of magnitude (fields from -2^63 to 2^63-1, +-7.2e9, +-2^32, +-(2^31+100), +-2147483000, +-10^9). Always: no panic, err != nil => returned *Decimal is nil, receiver canonical. Non-trivial = an accepted literal that needs rounding, or a rejected string; distinct by case."
 
 var propC12 = &h.Prop[C12Case]{ID: "C12", Rule: ruleC12, Gen: genC12, Check: checkC12, Matchers: map[string]func(C12Case) bool{}}
 
